@@ -707,10 +707,19 @@ def make_numpy(extra=None):
             self.name, self.op = name, op
 
         def py_call(self, I, a, k):
-            if k:
-                # out=, where=, dtype=, casting= ... (writing into views of other arrays is not modelled)
+            out = k.get("out", a[2] if len(a) > 2 else None)
+            if set(k) - {"out"} or len(a) not in (2, 3):
+                # where=, dtype=, casting= ...
                 raise Unsupported(f"np.{self.name}: keyword argument(s) {sorted(k)} not modelled")
-            return ops.binop(I, self.op, a[0], a[1])
+            r = ops.compare(I, self.op, a[0], a[1]) if self.op in ("Eq", "NotEq", "Lt", "LtE", "Gt", "GtE") else ops.binop(I, self.op, a[0], a[1])
+            if out is None:
+                return r
+            if isinstance(out, tuple) and len(out) == 1:
+                out = out[0]
+            if isinstance(out, Tensor) and isinstance(r, Tensor) and out.shape == r.shape:
+                out.data[:] = [ops.store_cast(out, e) for e in r.data]          # the result is written INTO `out` (views and aliases see it)
+                return out
+            raise Unsupported(f"np.{self.name}(out=) of this form")
 
         def py_getattr(self, I, name):
             if name == "reduce" and self.op == "+":
@@ -724,6 +733,8 @@ def make_numpy(extra=None):
     A["subtract"] = UFunc("subtract", "-")
     A["multiply"] = UFunc("multiply", "*")
     A["true_divide"] = UFunc("true_divide", "/")
+    for _nm, _op in (("equal", "Eq"), ("not_equal", "NotEq"), ("less", "Lt"), ("less_equal", "LtE"), ("greater", "Gt"), ("greater_equal", "GtE")):
+        A.setdefault(_nm, UFunc(_nm, _op))
     A["negative"] = Builtin("np.negative", lambda I, a, k: ops.unop(I, "USub", a[0]))
     A["positive"] = Builtin("np.positive", lambda I, a, k: a[0])
 
